@@ -225,14 +225,30 @@ class Setup:
                 keep = {nm: np.array(getattr(s, nm).values, copy=True) for nm in ("stock", "inflow", "outflow")}
                 drv = "inflow" if kind == "inflow" else "stock"
                 getattr(s, drv).values[...] = np.array([3.0 + 5 * rng.random() for _ in range(keep[drv].size)]).reshape(keep[drv].shape)
+                # on about half of the runs that earlier computation also used other lifetime parameters, and the
+                # parameters of this run were put in place by set_prms afterwards (scenario / sensitivity loop)
+                spec_ = getattr(self, "lifetime_spec", None)
+                other_prms = spec_ is not None and rng.random() < 0.5
+                if other_prms:
+                    which_, mean_, std_ = spec_
+                    mk_ = (lambda m_, s_: dict(weibull_shape=1.0 + s_, weibull_scale=m_)) if which_ == "weibull" else (lambda m_, s_: dict(mean=m_, std=s_))
+                    try:
+                        s.lifetime_model.set_prms(**mk_(np.array(mean_) * 1.6 + 0.4, np.array(std_) * 0.6 + 0.3))
+                    except Exception:
+                        pass
                 try:
                     with np.errstate(all="ignore"):
                         s.compute()
                 except Exception:
                     pass
+                if other_prms:
+                    try:
+                        s.lifetime_model.set_prms(**mk_(np.array(mean_, copy=True), np.array(std_, copy=True)))
+                    except Exception:
+                        pass
                 for nm, v in keep.items():
                     getattr(s, nm).values[...] = v
-                W.inputs["history" + tag] = "compute() ran once before with another driver"
+                W.inputs["history" + tag] = "compute() ran once before with another driver" + (" and other lifetime parameters (then set_prms)" if other_prms else "")
             if kind != "flow":
                 self.sf = np.array(s.lifetime_model.sf)
                 self.pdf = np.array(s.lifetime_model.pdf)
